@@ -29,6 +29,8 @@ func main() {
 	switch proj {
 	case "evmint":
 		cmdEvmint(*seed, *n, *out, *replay)
+	case "mercagg":
+		cmdMercAgg(*seed, *n, *out, *replay, *tier)
 	case "agg":
 		cmdAgg(*seed, *n, *out, *replay, *kinds, *tier)
 	default:
